@@ -10,6 +10,9 @@ use crate::lfu::tinylfu::sketch::{next_power_of_2, CountMinRow, DEPTH};
 use alloc::vec::Vec;
 use rand::{rngs::StdRng, Rng, SeedableRng};
 
+#[cfg(feature = "verif-hooks")]
+mod verif;
+
 /// `CountMinSketch` is a small conservative-update count-min sketch
 /// implementation with 4-bit counters
 #[derive(Clone)]
